@@ -1,15 +1,17 @@
 #!/bin/sh
-# Offline setup: warm the compiled-kernel cache (plain / bounds-checked / ASan)
-# from /repo's working tree.  Checks rebuild on their own when the .pyx changes.
+# Offline setup: warm the compiled-kernel cache (plain / bounds-checked / ASan builds of every
+# .pyx of the package) from /repo's working tree.  Checks rebuild on their own when a .pyx changes.
 cd "$(dirname "$0")" || exit 1
 mkdir -p evidence replay .build
 for v in plain bc asan; do
   /venv/bin/python - "$v" <<'PY' || exit 1
-import sys
+import os, sys
 from vf.build import compile_kernel
 from vf import catii_src
-import os
-print(compile_kernel(os.path.join(catii_src(), "set_operations.pyx"), sys.argv[1]))
+src = catii_src()
+for name in sorted(os.listdir(src)):
+    if name.endswith(".pyx"):
+        print(compile_kernel(os.path.join(src, name), sys.argv[1]))
 PY
 done
 echo setup ok
